@@ -234,6 +234,27 @@ func (c *ctx) order(adj refmodel.Adj, pre bool) {
 	c.op(name)
 	sg := &simenv.SimGraph{Adj: adj}
 	var got []int
+	if c.f.Chance(1, 6) {
+		// fault: the graph's Out crashes once mid-traversal; the caller recovers and
+		// simply calls again (anything the aborted traversal left behind must not matter)
+		sg.CrashAt = 1 + c.f.Intn(4)
+		c.fault("graph_out_crash", fmt.Sprintf("Graph.Out panics on call %d during %s", sg.CrashAt, name))
+		pv := c.try(func() {
+			if pre {
+				graphalg.PreOrder(sg, root)
+			} else {
+				graphalg.PostOrder(sg, root)
+			}
+		})
+		if pv != nil {
+			if _, ok := pv.(*simenv.Crash); !ok {
+				c.fail("order-panic", name, sizeClass(len(adj)), "%s panicked on a graph with %d nodes (root %d): %v", name, len(adj), root, simkitStr(pv))
+				return
+			}
+			c.probe("callback_crash_propagated")
+		}
+		sg.CrashAt = 0
+	}
 	if pv := c.try(func() {
 		if pre {
 			got = graphalg.PreOrder(sg, root)
